@@ -371,7 +371,8 @@ macro_rules! fonts {
 fn glyphs_from_u8_data(font_height: usize, mut data: &[u8]) -> HashMap<char, Glyph> {
     let mut glyphs = HashMap::new();
     let mut ch = 0;
-    while !data.is_empty() {
+    // a height of 0 never consumes data, an incomplete last glyph is dropped
+    while font_height > 0 && data.len() >= font_height {
         let glyph = Glyph {
             data: data[..font_height].into(),
         };
